@@ -430,6 +430,17 @@ impl Property for C04 {
         }
         cx.label(&format!("{:?}", case.kind).split(' ').next().unwrap().to_string());
 
+        match case.seed / 40 % 4 {
+            1 => {
+                upgrade_and_migrate(env, &w.its.id).map_err(|e| format!("setup: {}", e))?;
+                cx.label("token_service_upgraded_and_migrated_before_delivery");
+            }
+            2 => {
+                upgrade_and_migrate(env, &w.gw.id).map_err(|e| format!("setup: {}", e))?;
+                cx.label("gateway_upgraded_and_migrated_before_delivery");
+            }
+            _ => {}
+        }
         // ---- observe before
         let t1 = w.token(&t1_addr);
         let t2 = TokenClient::new(env, &asset);
